@@ -37,13 +37,14 @@ def gatherAct (C : Crypto) (g : Bytes) (tr : Tree) (t : Token) : Act :=
 /-- the tests of one iteration of the verify / get_root_path loop, at token `cur` -/
 def walkVal (C : Crypto) (g : Bytes) (els : List Token) (cur : Token) : Atom → Bool
   | .verify => cur.valid C
+  | .chashLenNe => cur.chash.length != g.length
   | .prevIsGenesis => cur.prev == g
   | .prevInElements => hasId C els cur.prev
   | _ => false
 
 /-- the path the MODEL's `walk` takes through one iteration -/
 def walkAct (C : Crypto) (g : Bytes) (els : List Token) (cur : Token) : Act :=
-  if !cur.valid C then .fail
+  if !(cur.chash.length == g.length && cur.valid C) then .fail
   else if cur.prev == g then .brk
   else match lookup C els cur.prev with
     | none => .fail
